@@ -1783,13 +1783,14 @@ def GET_EYE(
     eye_dict["i"] = instant
 
     # We obtain the upper cluster
-    cond = (input > y_center) & ((t_span0 < t) & (t < t_span1))
+    centre = np.abs((t - t_center + 0.5) % 1 - 0.5) < 0.05 * t_dist  # the same window in every slot of the two-slot trace
+    cond = (input > y_center) & centre
     y_top = input.copy()
     y_top[~cond]=np.nan
     eye_dict["y_top"] = y_top
 
     # We obtain the lower cluster
-    cond = (input < y_center) & ((t_span0 < t) & (t < t_span1))
+    cond = (input < y_center) & centre
     y_bot = input.copy()
     y_bot[~cond]=np.nan
     eye_dict["y_bot"] = y_bot
@@ -1802,7 +1803,7 @@ def GET_EYE(
 
     # compute umbral
     x = np.linspace(mu0, mu1, 500)
-    y = input[ ((t_span0 < t) & (t < t_span1)) ]
+    y = input[centre]
     
     try:
         pdf = gaussian_kde(y).evaluate(x)
